@@ -10,12 +10,14 @@ import collections
 from mc.ctx import HarnessError, jsonable, stable_hash
 
 
-def bfs(ctx, mod, inits, ops, depth, run_history, diff_continuation=True, max_states=None, prefix=()):
+def bfs(ctx, mod, inits, ops, depth, run_history, diff_continuation=True, max_states=None, prefix=(), dedup=True):
     """run_history(case, ctx) -> canonical key of the final state (or None if the history broke).
 
     `case` = {"init": init, "ops": [...]}; run_history replays the whole history on fresh
     objects and evaluates every transition post-condition and state invariant along it
-    (violations are recorded through ctx).  Returns statistics.
+    (violations are recorded through ctx).  Returns statistics.  dedup=False explores the full
+    tree of histories up to `depth` (for behaviour that may depend on hidden state such as the
+    number of calls, which the canonical key cannot see).
     """
     seen = {}
     frontier = collections.deque()
@@ -64,11 +66,11 @@ def bfs(ctx, mod, inits, ops, depth, run_history, diff_continuation=True, max_st
                 continue
             h2 = succ[-1]
             ctx.states.add(h2)
-            if h2 not in seen:
+            if h2 not in seen or not dedup:
                 if max_states and len(seen) >= max_states:
                     ctx.cap("max_states=%d" % max_states)
                     continue
-                seen[h2] = (init, hist + [op])
+                seen.setdefault(h2, (init, hist + [op]))
                 frontier.append((init, hist + [op], h2))
                 maxdepth = max(maxdepth, len(hist) + 1)
             elif (diff_continuation and len(hist) + 1 < depth and h2 not in continued
